@@ -4,9 +4,9 @@ import importlib
 
 from ..core import rule
 from ..index import AnalysisError, dotted, src, walk_no_nested, names_in
-from ..cfg import CFG
+from ..cfg import CFG, eval3, UNK
 from ..domains import linform, Lin, check_pred
-from ..util import node_calls, own_expr, last_name
+from ..util import node_calls, own_expr, last_name, reach_conds
 from .slots import MOLECULE, SEQUTILS, P
 
 ITERATION = P + 'utils/iteration.py'
@@ -164,14 +164,14 @@ def r2(ctx):
         if term not in ('fall', 'continue'):
             continue
         arm = None
+        optests = []
         env = {'reference_position': Lin({'rp0': 1})}
         fetch = None
         for nid, label in p:
             nn = cfg.nodes[nid]
             if nn.kind == 'test':
-                t = nn.ast.test
-                if isinstance(t, ast.Compare) and src(t.left) == opv and isinstance(t.comparators[0], ast.Constant) and isinstance(t.ops[0], ast.Eq) and label == 'true':
-                    arm = t.comparators[0].value
+                if opv in names_in(nn.ast.test) and label in ('true', 'false'):
+                    optests.append((nn.ast.test, label == 'true'))
             elif nn.kind == 'stmt':
                 a = nn.ast
                 if isinstance(a, ast.Assign) and isinstance(a.targets[0], ast.Name) and not isinstance(a.value, (ast.List, ast.Call, ast.Tuple)):
@@ -183,8 +183,12 @@ def r2(ctx):
                 for c in node_calls(nn):
                     if isinstance(c.func, ast.Attribute) and c.func.attr == 'extract_stretch_from_dict' and len(c.args) == 3:
                         fetch = (linform(c.args[1], env), linform(c.args[2], env))
-        if arm in res:
-            res[arm].append((env.get('reference_position'), fetch, env.get('reference_end')))
+        # the CIGAR operation(s) for which this path is feasible: every test on the operation variable agrees (however the arms are written:
+        # if/elif chain, `!= 'M': continue` guards ...)
+        feas = [v for v in ('M', 'N', 'S', 'I', 'D') if all((lambda r_: r_ is not UNK and bool(r_) == pol)(eval3(t_, {opv: v})) for t_, pol in optests)]
+        for arm in feas:
+            if arm in res:
+                res[arm].append((env.get('reference_position'), fetch, env.get('reference_end')))
     ctx.counters['paths_enumerated'] += sum(len(v) for v in res.values())
     rp0, am = Lin({'rp0': 1}), Lin({amt: 1})
     okM = bool(res['M']) and all(rp == rp0 + am and ft == (rp0, rp0 + am) and re_ == rp0 + am for rp, ft, re_ in res['M'])
@@ -226,21 +230,16 @@ def r2(ctx):
                        'best bases tie, and that test dominates the normal return')
 def r3(ctx):
     f = ctx.fn(SEQUTILS, 'phredscores_to_base_call')
-    ifs = [s for s in f.body if isinstance(s, ast.If) and s.body and isinstance(s.body[0], ast.Return) and
-           isinstance(s.body[0].value, ast.Tuple) and src(s.body[0].value.elts[0]) == "'N'"]
-    if len(ifs) != 1:
-        ctx.emit('C15-R3', False, SEQUTILS, f, 'no `return "N", 0` arm found in phredscores_to_base_call', key='tie-returns-N')
+    # the ranked list: the local assigned from Counter(...).most_common()
+    ranked = [s_ for s_ in walk_no_nested(f) if isinstance(s_, ast.Assign) and len(s_.targets) == 1 and isinstance(s_.targets[0], ast.Name) and src(s_.value).endswith('.most_common()')]
+    if len(ranked) != 1:
+        ctx.emit('C15-R3', False, SEQUTILS, f, 'phredscores_to_base_call: the candidates are not ranked with most_common()', key='tie-returns-N')
         return
-    t = ifs[0].test
-    # the ranked list
-    var = None
-    for n in walk_no_nested(t):
-        if isinstance(n, ast.Call) and dotted(n.func) == 'len' and isinstance(n.args[0], ast.Name):
-            var = n.args[0].id
-    if var is None:
-        raise AnalysisError('phredscores_to_base_call: tie test does not inspect the length of the ranked list')
+    var = ranked[0].targets[0].id
 
     def atom(n):
+        if isinstance(n, ast.Compare):
+            return None
         s_ = src(n)
         if s_ == f'len({var})':
             return 'n'
@@ -249,17 +248,23 @@ def r3(ctx):
         if s_ == f'{var}[1][1]':
             return 'p1'
         return None
-    ncase, bad = check_pred(t, lambda e: e['n'] == 0 or (e['n'] >= 2 and e['p0'] == e['p1']), symbols=['n', 'p0', 'p1'],
-                            constraint=lambda e: e['n'] >= 0 and e['p0'] >= e['p1'], atom_name=atom, extra_consts=(0, 1, 2))
+    from ..domains import assignments
+    from ..util import outcomes_by_case
+    cases = list(assignments(['n', 'p0', 'p1'], (0, 1, 2), (), lambda e: e['n'] >= 0 and e['p0'] >= e['p1']))
+    after_rank = f.body[f.body.index(ranked[0]) + 1:] if ranked[0] in f.body else f.body
+    bad = []
+    best = {f'({var}[0][0], {var}[0][1])', f'{var}[0]'}
+    for case, outs in outcomes_by_case(after_rank, cases, atom):
+        undecidable = case['n'] == 0 or (case['n'] >= 2 and case['p0'] == case['p1'])
+        rets = {v for k, v in outs if k == 'return'}
+        good = (rets == {"('N', 0)"}) if undecidable else (len(rets) == 1 and next(iter(rets)) in best)
+        if (not good or any(k != 'return' for k, v in outs)) and len(bad) < 3:
+            bad.append({'case': case, 'outcomes': sorted(map(str, outs)), 'undecidable': undecidable})
+    ncase = len(cases)
     ctx.counters['abstract_cases'] += ncase
-    # ranked by probability, descending
-    ranked = [s for s in walk_no_nested(f) if isinstance(s, ast.Assign) and src(s.targets[0]) == var]
-    okr = len(ranked) == 1 and 'most_common()' in src(ranked[0].value)
-    after = f.body[f.body.index(ifs[0]) + 1:]
-    okret = len(after) == 1 and isinstance(after[0], ast.Return) and src(after[0].value).replace(' ', '') in (f'({var}[0][0],{var}[0][1])', f'{var}[0][0],{var}[0][1]', f'{var}[0]')
-    ctx.emit('C15-R3', not bad and okr and okret, SEQUTILS, ifs[0],
-             f'phredscores_to_base_call: N arm `{src(t)}` over {ncase} cases ' + ('== (no observation or tie of the two most likely bases)' if not bad else f'differs at {bad[0]}') +
-             ('' if okr else '; ranking is not most_common()') + ('' if okret else '; final return is not the best ranked call'),
+    ctx.emit('C15-R3', not bad, SEQUTILS, ranked[0],
+             f'phredscores_to_base_call over {ncase} cases (number of candidates, two best probabilities): ' +
+             ('("N", 0) iff no observation or tie of the two most likely bases, otherwise the best ranked call' if not bad else f'differs at {bad[0]}'),
              key='tie-returns-N', witness=bad[0] if bad else None)
     ctx.exhaustive['C15-R3'] = True
     # normalisation uses all bases incl. N; product over observations
@@ -320,8 +325,16 @@ def r4(ctx):
             if blt is not None:
                 l, c = blt
                 over_cigar = bool(names) and names[4] in names_in(l.iter)
-                guarded = _guard_text(ix_mod(ctx), c, l)
-                okmd = okq2 and over_cigar and ("'M'" in guarded or '"M"' in guarded)
+                # the fetch executes exactly for M operations: its reach condition in the loop body evaluated for the operation letters
+                conds = reach_conds(l.body, c) or []
+                guarded = ' and '.join((src(t_) if pol else f'not ({src(t_)})') for t_, pol in conds)
+                opn = l.target.id if isinstance(l.target, ast.Name) else None
+
+                def holds(letter):
+                    at = lambda e: (letter if src(e) == f'{opn}[-1]' else UNK)
+                    vals = [(eval3(t_, {}, at), pol) for t_, pol in conds]
+                    return all(v is not UNK and bool(v) == pol for v, pol in vals)
+                okmd = okq2 and over_cigar and opn is not None and bool(conds) and holds('M') and not holds('N') and not holds('S')
                 # pointer advanced for every operation
                 adv = [a for a in l.body if isinstance(a, ast.AugAssign) and isinstance(a.op, ast.Add)]
                 okmd = okmd and len(adv) >= 1
